@@ -15,6 +15,8 @@ import traceback
 from . import core
 
 RealThread = threading.Thread
+RealLock = threading.Lock
+RealRLock = threading.RLock
 
 
 class SimShutdown(BaseException):
@@ -147,6 +149,20 @@ class Scheduler:
         me.state = "net"
         me.wake_at = None if latency_us is None else self.now() + latency_us
         self._handover(me, "net-wait")
+
+    def block_on_lock(self, lock):
+        """the current task waits (in virtual time, without a deadline) until `lock` is released"""
+        me = self.current
+        me.state = "lock"
+        me.lock = lock
+        me.wake_at = None
+        self._handover(me, "lock-wait")
+
+    def lock_released(self, lock):
+        for t in self.tasks:
+            if t.state == "lock" and getattr(t, "lock", None) is lock:
+                t.state = "runnable"
+                t.lock = None
 
     def join(self, me_task_obj, target, timeout_s):
         me = self.current
@@ -284,12 +300,66 @@ def _tracer(frame, event, arg):
 # --- the simulated update server -------------------------------------------------------------------------------------
 
 
+class SimLock:
+    """stand-in for threading.Lock / RLock objects created while ascmhl.cli.* is imported: a task that finds the lock
+    taken blocks in the scheduler (virtual time) instead of blocking the one real thread that holds the baton"""
+
+    def __init__(self, reentrant=False):
+        self._owner = None
+        self._count = 0
+        self._reentrant = reentrant
+
+    def acquire(self, blocking=True, timeout=-1):
+        me = SCHED.current if SCHED is not None else None
+        while self._owner is not None and not (self._reentrant and self._owner is me):
+            if not blocking or me is None:
+                return False
+            SCHED.block_on_lock(self)
+        self._owner = me if me is not None else True
+        self._count += 1
+        return True
+
+    def release(self):
+        self._count -= 1
+        if self._count <= 0:
+            self._owner, self._count = None, 0
+            if SCHED is not None:
+                SCHED.lock_released(self)
+
+    def locked(self):
+        return self._owner is not None
+
+    __enter__ = acquire
+
+    def __exit__(self, *exc):
+        self.release()
+
+
 class FakeResponse:
-    def __init__(self, status, body):
+    def __init__(self, status, body, body_wait="done"):
         self.status_code = status
         self._body = body  # ("json", obj) | ("notjson", kind)
         self.ok = status < 400
-        self.text = repr(body)
+        self._body_wait = body_wait  # "done" | virtual microseconds the body still needs | None = never arrives
+        self._text = repr(body)
+
+    def _read_body(self):
+        # with stream=True the body is downloaded when it is first asked for
+        if self._body_wait != "done":
+            wait, self._body_wait = self._body_wait, "done"
+            SCHED.yield_point("body-enter")
+            SCHED.block_net(wait)
+            SCHED.cs.extra["net_delivered_at"] = SCHED.now()
+
+    @property
+    def text(self):
+        self._read_body()
+        return self._text
+
+    @property
+    def content(self):
+        self._read_body()
+        return self._text.encode()
 
     def raise_for_status(self):
         if self.status_code >= 400:
@@ -298,6 +368,7 @@ class FakeResponse:
             raise requests.exceptions.HTTPError(f"{self.status_code} Error", response=self)
 
     def json(self, **kw):
+        self._read_body()
         kind, val = self._body
         if kind == "json":
             return val
@@ -326,16 +397,25 @@ def make_sim_get(script):
         SCHED.block_net(script.get("latency_us"))
         SCHED.cs.extra["net_delivered_at"] = SCHED.now()
         kind = script["kind"]
+        # the headers have arrived; the body may take longer ("body_latency_us", None = it never completes).  Without
+        # stream=True requests.get only returns once the body is there, with it the body is read on first access
+        bw = "done"
+        if "body_latency_us" in script and kind != "exc":
+            if kwargs.get("stream"):
+                bw = script["body_latency_us"]
+            else:
+                SCHED.block_net(script["body_latency_us"])
+                SCHED.cs.extra["net_delivered_at"] = SCHED.now()
         if kind == "tag":
-            return FakeResponse(200, ("json", {"tag_name": script["tag"], "name": "release"}))
+            return FakeResponse(200, ("json", {"tag_name": script["tag"], "name": "release"}), bw)
         if kind == "no_tag":
-            return FakeResponse(200, ("json", {"message": "Not Found"}))
+            return FakeResponse(200, ("json", {"message": "Not Found"}), bw)
         if kind == "json_other":
-            return FakeResponse(200, ("json", script["value"]))
+            return FakeResponse(200, ("json", script["value"]), bw)
         if kind == "not_json":
-            return FakeResponse(200, ("notjson", script.get("exc", "requests")))
+            return FakeResponse(200, ("notjson", script.get("exc", "requests")), bw)
         if kind == "http":
-            return FakeResponse(script["status"], ("json", {"message": "rate limit"}))
+            return FakeResponse(script["status"], ("json", {"message": "rate limit"}), bw)
         if kind == "exc":
             exc = {
                 "ConnectionError": requests.exceptions.ConnectionError,
@@ -372,6 +452,8 @@ def run_cli_job(cs, tool, argv, net_script, sched_seed, preempt_permille, wall_s
     for m in ("ascmhl.cli.update", "ascmhl.cli.ascmhl", "ascmhl.cli.ascmhl_debug"):
         sys.modules.pop(m, None)
     threading.Thread = SimThread
+    threading.Lock = SimLock
+    threading.RLock = lambda: SimLock(reentrant=True)
     t_start = sched.now()
     result = {"exit": None, "terminated": True, "virtual_hang": False}
     sys.settrace(_tracer)
@@ -384,6 +466,7 @@ def run_cli_job(cs, tool, argv, net_script, sched_seed, preempt_permille, wall_s
                 mod = importlib.import_module("ascmhl.cli.ascmhl_debug")
                 group = mod.mhldebugtool_cli
             threading.Thread = RealThread
+            threading.Lock, threading.RLock = RealLock, RealRLock
             group.main(args=list(argv), prog_name=tool, standalone_mode=True)
             result["exit"] = 0
         except SystemExit as e:
@@ -402,6 +485,7 @@ def run_cli_job(cs, tool, argv, net_script, sched_seed, preempt_permille, wall_s
     finally:
         sys.settrace(None)
         threading.Thread = RealThread
+        threading.Lock, threading.RLock = RealLock, RealRLock
     result["main_end_us"] = sched.now()
     # process exit: daemon threads are discarded, non-daemon threads must finish
     if not result["virtual_hang"]:
